@@ -52,6 +52,16 @@ Section TotalForce.
   Definition mtvmul (m : mat) (v : vec) : vec :=      (* transpose (= inverse rotation) times v *)
     let '(r1, r2, r3) := m in let '(vx, vy, vz) := v in vadd (vscale vx r1) (vadd (vscale vy r2) (vscale vz r3)).
 
+  (* periodic cell (orthorhombic edges) or none; colvarproxy_system::position_distance(p1, p2): minimum image of p2 - p1 *)
+  Variable cell : option vec.
+  Definition min_image1 (L d : T) : T := d - nofZ O (nfloor O (d / L + half)) * L.
+  Definition pdist (p1 p2 : vec) : vec :=
+    let d := vsub p2 p1 in
+    match cell with
+    | None => d
+    | Some (lx, ly, lz) => let '(dx, dy, dz) := d in (min_image1 lx dx, min_image1 ly dy, min_image1 lz dz)
+    end.
+
   Definition tsum (l : list T) : T := fold_right (fun x acc => x + acc) zero l.
   Definition vsum (l : list vec) : vec := fold_right vadd vzero l.
   Definition ofnat (n : nat) : T := nofZ O (Z.of_nat n).
@@ -150,23 +160,24 @@ Section TotalForce.
       end.
 
     (* ---- distance ---- *)
-    Definition dist_v (g1 g2 : group) : vec := vsub (gcom g2) (gcom g1).
+    Definition dist_v (g1 g2 : group) : vec := pdist (gcom g1) (gcom g2).
 
     (* ---- distanceZ / distanceXY geometry ---- *)
     (* axis and its norm: fixed axis as configured, or the unit vector from ref to ref2 *)
     Definition dz_axis (gr : group) (gr2 : option group) (axis : vec) : vec :=
-      match gr2 with None => axis | Some g2 => vunit (vsub (gcom g2) (gcom gr)) end.
+      match gr2 with None => axis | Some g2 => vunit (pdist (gcom gr) (gcom g2)) end.
     Definition dz_axis_norm (gr : group) (gr2 : option group) : T :=
-      match gr2 with None => one | Some g2 => vnorm (vsub (gcom g2) (gcom gr)) end.
+      match gr2 with None => one | Some g2 => vnorm (pdist (gcom gr) (gcom g2)) end.
     Definition dz_dist_v (gm gr : group) (gr2 : option group) : vec :=
       match gr2 with
-      | None => vsub (gcom gm) (gcom gr)
-      | Some g2 => vsub (gcom gm) (vscale half (vadd (gcom gr) (gcom g2)))
+      | None => pdist (gcom gr) (gcom gm)
+      (* midpoint of the references along their minimum-image vector *)
+      | Some g2 => pdist (vadd (gcom gr) (vscale half (pdist (gcom gr) (gcom g2)))) (gcom gm)
       end.
     Definition dz_value (gm gr : group) (gr2 : option group) (axis : vec) : T :=
       vdot (dz_axis gr gr2 axis) (dz_dist_v gm gr gr2).
     (* distanceXY: dist_v is always main - ref *)
-    Definition dxy_dist_v (gm gr : group) : vec := vsub (gcom gm) (gcom gr).
+    Definition dxy_dist_v (gm gr : group) : vec := pdist (gcom gr) (gcom gm).
     Definition dxy_ortho (gm gr : group) (gr2 : option group) (axis : vec) : vec :=
       let ax := dz_axis gr gr2 axis in
       let dv := dxy_dist_v gm gr in vsub dv (vscale (vdot dv ax) ax).
@@ -175,8 +186,8 @@ Section TotalForce.
 
     (* ---- angle ---- *)
     Definition deg : T := nofZ O 180 / pi.
-    Definition ang_r21 (g1 g2 : group) : vec := vsub (gcom g1) (gcom g2).
-    Definition ang_r23 (g2 g3 : group) : vec := vsub (gcom g3) (gcom g2).
+    Definition ang_r21 (g1 g2 : group) : vec := pdist (gcom g2) (gcom g1).
+    Definition ang_r23 (g2 g3 : group) : vec := pdist (gcom g2) (gcom g3).
     Definition ang_cos (g1 g2 g3 : group) : T :=
       vdot (ang_r21 g1 g2) (ang_r23 g2 g3) / (vnorm (ang_r21 g1 g2) * vnorm (ang_r23 g2 g3)).
     Definition ang_dxdr1 (g1 g2 g3 : group) : vec :=
@@ -195,7 +206,7 @@ Section TotalForce.
              (vadd (vscale (one / r21l) r21) (vscale (nneg O one * c) (vscale (one / r23l) r23))).
 
     (* ---- dihedral ---- *)
-    Definition dih_r12 (g1 g2 : group) : vec := vsub (gcom g2) (gcom g1).
+    Definition dih_r12 (g1 g2 : group) : vec := pdist (gcom g1) (gcom g2).
     Definition dih_f1 (g1 g2 g3 : group) : vec :=
       let r12 := dih_r12 g1 g2 in let r23 := dih_r12 g2 g3 in
       let A := vcross r12 r23 in vscale (deg * vnorm r23 / vnorm2 A) A.
@@ -299,8 +310,8 @@ Section TotalForce.
           (* repaired gradients (/repo "fix: distanceZ with ref2 gave ref and ref2 each other's gradient"):
              dx/dref = (ref - main + x axis)/|ref2-ref|, dx/dref2 = (main - ref2 - x axis)/|ref2-ref| *)
           fadd (gapply gm ax fc)
-            (fadd (gapply gr (vscale (one / an) (vadd (vsub (gcom gr) (gcom gm)) (vscale x ax))) fc)
-                  (gapply g2 (vscale (one / an) (vsub (vsub (gcom gm) (gcom g2)) (vscale x ax))) fc))
+            (fadd (gapply gr (vscale (one / an) (vadd (pdist (gcom gm) (gcom gr)) (vscale x ax))) fc)
+                  (gapply g2 (vscale (one / an) (vsub (pdist (gcom g2) (gcom gm)) (vscale x ax))) fc))
       | CDistanceXY gm gr None axis _ =>
           let x := dxy_value gm gr None axis in
           let dvo := dxy_ortho gm gr None axis in
